@@ -4,7 +4,9 @@
    [skip] is the molecule's skip test: skip_fixed = repaired rule (fixes/C13-D16.patch), skip_head = /repo HEAD rule.
    frag_call skip ds f k = the one call fragment f contributes at key k = (contig, refpos) (None = no vote: skipped,
    ValueError, not covered, or 'N'); votes skip ds fs k b = number of fragments of fs whose call at k is b.
-   pre fs = every fragment has the two-slot reads list and every query base is one of ACGTN. *)
+   pre fs = every fragment has the two-slot reads list and every query base is one of ACGTN.
+   [ds : opts] is the whole keyword-option record of the query (dove_safe, only_include_refbase, min_phred_score,
+   skip_first/last_n_cycles_R1/R2, dove_R1/R2_distance); every theorem quantifies over it. *)
 From Coq Require Import ZArith List Bool Permutation.
 Import ListNotations.
 From SCMO Require Import Lib.Val Model.C13 Proofs.C13.
@@ -104,8 +106,9 @@ Proof. exact pick2_hi_both. Qed.
 Print Assumptions C13_pick_higher.
 
 (* what a mate contributes to a fragment's call: its aligned (refpos, base, quality) triples inside the dove-safe window *)
-Theorem C13_read_call : forall w r d c p b q, read_dict w (Some r) = Ok d -> NoDup (map call_pos (r_calls r)) ->
-  (dget (c, p) d = Some (b, q) <-> c = r_contig r /\ in_win w p = true /\ In (p, b, q) (r_calls r)).
+Theorem C13_read_call : forall w fl r d c p b q, read_dict w fl (Some r) = Ok d -> NoDup (map call_pos (r_calls r)) ->
+  (dget (c, p) d = Some (b, q) <->
+   c = r_contig r /\ exists qp rb, In (p, b, q, qp, rb) (r_calls r) /\ keep_call w fl r (p, b, q, qp, rb) = true).
 Proof. exact read_dict_get. Qed.
 Print Assumptions C13_read_call.
 
@@ -115,7 +118,8 @@ Proof. exact specb_sound. Qed.
 Print Assumptions C13_specb_sound.
 
 (* the repaired skip rule never drops a fragment unless dove_safe is requested, and then exactly the unpaired ones *)
-Theorem C13_skip_rule : forall f, skip_fixed false f = false /\ skip_fixed true f = negb (has_R1 f && has_R2 f).
+Theorem C13_skip_rule : forall ds f,
+  (o_ds ds = false -> skip_fixed ds f = false) /\ (o_ds ds = true -> skip_fixed ds f = negb (has_R1 f && has_R2 f)).
 Proof. exact skip_rule. Qed.
 Print Assumptions C13_skip_rule.
 
@@ -125,35 +129,35 @@ Theorem C13_head_r2_only_no_call : forall ds r k, frag_call skip_head ds [None; 
 Proof. exact head_r2_only_no_call. Qed.
 Print Assumptions C13_head_r2_only_no_call.
 Theorem C13_head_refuted :
-  exists fs out, pre fs = true /\ mol_consensus skip_head false fs = Ok out /\
-                 majority skip_fixed false fs (0, 20) = Some bC /\ dget (0, 20) out = Some bA.
+  exists fs out, pre fs = true /\ mol_consensus skip_head (dflt false) fs = Ok out /\
+                 majority skip_fixed (dflt false) fs (0, 20) = Some bC /\ dget (0, 20) out = Some bA.
 Proof. exact head_refuted. Qed.
 Print Assumptions C13_head_refuted.
 
 (* non-vacuity: a molecule satisfying [pre] with a tie (absent), a 2:1 majority, an N-only position, a mate
    quality tie, a dove-safe run, and a one-slot fragment raising IndexError *)
 Example C13_example :
-  pre ex_mol = true /\ mol_consensus skip_fixed false ex_mol = Ok [((0, 21), bG)] /\
-  mol_consensus skip_fixed true ex_mol = Ok [((0, 21), bT)] /\
-  votes skip_fixed false ex_mol (0, 20) bA = 1 /\ votes skip_fixed false ex_mol (0, 20) bC = 1 /\
-  votes skip_fixed false ex_mol (0, 21) bG = 2 /\ votes skip_fixed false ex_mol (0, 21) bT = 1 /\
-  mol_consensus skip_fixed false (ex_mol ++ [[ex_rd false []]]) = IndexError.
+  pre ex_mol = true /\ mol_consensus skip_fixed (dflt false) ex_mol = Ok [((0, 21), bG)] /\
+  mol_consensus skip_fixed (dflt true) ex_mol = Ok [((0, 21), bT)] /\
+  votes skip_fixed (dflt false) ex_mol (0, 20) bA = 1 /\ votes skip_fixed (dflt false) ex_mol (0, 20) bC = 1 /\
+  votes skip_fixed (dflt false) ex_mol (0, 21) bG = 2 /\ votes skip_fixed (dflt false) ex_mol (0, 21) bT = 1 /\
+  mol_consensus skip_fixed (dflt false) (ex_mol ++ [[ex_rd false []]]) = IndexError.
 Proof. exact ex_mol_facts. Qed.
 Print Assumptions C13_example.
 
 Example C13_example_tie_and_N :
-  votes skip_fixed false ex_mol (0, 20) bA = votes skip_fixed false ex_mol (0, 20) bC /\
-  forallb (fun b => votes skip_fixed false ex_mol (0, 20) b <=? votes skip_fixed false ex_mol (0, 20) bA) acgt = true /\
-  frag_call skip_fixed false (nth 2 ex_mol []) (0, 20) = None /\
-  forallb (fun f => match frag_call skip_fixed false f (0, 22) with None => true | Some _ => false end) ex_mol = true /\
-  majority skip_fixed false ex_mol (0, 20) = None /\ majority skip_fixed false ex_mol (0, 21) = Some bG /\
-  specb skip_fixed false ex_mol [((0, 21), bG)] = true /\ specb skip_fixed false ex_mol [((0, 21), bG); ((0, 20), bA)] = false.
+  votes skip_fixed (dflt false) ex_mol (0, 20) bA = votes skip_fixed (dflt false) ex_mol (0, 20) bC /\
+  forallb (fun b => votes skip_fixed (dflt false) ex_mol (0, 20) b <=? votes skip_fixed (dflt false) ex_mol (0, 20) bA) acgt = true /\
+  frag_call skip_fixed (dflt false) (nth 2 ex_mol []) (0, 20) = None /\
+  forallb (fun f => match frag_call skip_fixed (dflt false) f (0, 22) with None => true | Some _ => false end) ex_mol = true /\
+  majority skip_fixed (dflt false) ex_mol (0, 20) = None /\ majority skip_fixed (dflt false) ex_mol (0, 21) = Some bG /\
+  specb skip_fixed (dflt false) ex_mol [((0, 21), bG)] = true /\ specb skip_fixed (dflt false) ex_mol [((0, 21), bG); ((0, 20), bA)] = false.
 Proof. exact ex_tie_facts. Qed.
 Print Assumptions C13_example_tie_and_N.
 Example C13_example_perm_double :
-  Permutation (rev ex_mol) ex_mol /\ mol_consensus skip_fixed false (rev ex_mol) = mol_consensus skip_fixed false ex_mol /\
-  mol_consensus skip_fixed false (ex_mol ++ rev ex_mol) = mol_consensus skip_fixed false ex_mol /\
-  mol_table skip_fixed false ex_mol [] = Ok [((0, 20), (1, 1, 0, 0, 0)); ((0, 21), (0, 0, 2, 1, 0))].
+  Permutation (rev ex_mol) ex_mol /\ mol_consensus skip_fixed (dflt false) (rev ex_mol) = mol_consensus skip_fixed (dflt false) ex_mol /\
+  mol_consensus skip_fixed (dflt false) (ex_mol ++ rev ex_mol) = mol_consensus skip_fixed (dflt false) ex_mol /\
+  mol_table skip_fixed (dflt false) ex_mol [] = Ok [((0, 20), (1, 1, 0, 0, 0)); ((0, 21), (0, 0, 2, 1, 0))].
 Proof. exact ex_perm_facts. Qed.
 Print Assumptions C13_example_perm_double.
 Example C13_example_pick :
@@ -202,3 +206,14 @@ Example C13_example_history :
   held ex_history = ex_mol ++ [nth 1 ex_mol []].
 Proof. exact ex_history_facts. Qed.
 Print Assumptions C13_example_history.
+
+(* all theorems above quantify over the whole option record [ds : opts] (dove_safe, only_include_refbase, min_phred_score,
+   skip_first/last_n_cycles_R1/R2, dove_R1/R2_distance); this instance shows the options change the answer and that a
+   history mixing them answers each query for its own options *)
+Example C13_example_options :
+  mol_consensus skip_fixed ex_minq ex_mol = Ok [] /\
+  mol_consensus skip_fixed (dflt false) ex_mol = Ok [((0, 21), bG)] /\
+  run_ops skip_fixed [] [OpMol ex_mol; OpGet ex_minq false; OpGet (dflt false) false; OpGet ex_skipc false] =
+  [AnsCons (Ok []); AnsCons (Ok [((0, 21), bG)]); AnsCons (Ok [((0, 21), bT)])].
+Proof. exact ex_opts_facts. Qed.
+Print Assumptions C13_example_options.
